@@ -91,6 +91,10 @@ def signature(prop, ev, clauses):
         return "%s|%s|after %s" % (prop, cl, ev["rule"].split("@")[0])
     if ev["typ"] == "print":
         return "%s|%s|print|%s" % (prop, cl, parsefam.classify(ev["text"]))
+    if ev["typ"] == "step" and ev.get("printed", "").startswith("<str() raised ValueError") and \
+            any(len(b.get("dg", [])) > 4300 and b.get("sc", 0) == 0 for b in ev.get("ha", {}).get("big", [])):
+        # one root cause whatever the rule and the surrounding tree: CPython refuses int -> text beyond 4300 digits
+        return "%s|%s|integer constant longer than 4300 digits cannot be printed" % (prop, cl)
     try:
         pat = pattern(ev["hb"], ev["node"])
     except Exception:  # noqa
@@ -122,7 +126,7 @@ def start_texts(ctx, prop, res):
         ctxs = rewrite.contexts(pick, rng, {"C01": 500, "C04": 400, "C06": 300, "C07": 1200}[prop] if q else 12000)
         gens = rewrite.generator_outputs(ctx.seed, 120 if q else 3000)
         forms = rewrite.FORMS + rewrite.contexts(rewrite.FORMS, rng, 40 if q else 400)
-        texts = sent_texts + extra + pick + ctxs + rewrite.test_json_inputs() + gens + forms + rewrite.SHARED_ID_FORMS
+        texts = sent_texts + extra + pick + ctxs + rewrite.test_json_inputs() + gens + forms + rewrite.SHARED_ID_FORMS + [t for t in rewrite.HUGE_FORMS if "=" not in t]
         parts.append("%d/%d TLC-emitted sentences (<= 5 tokens) + %d operand variants; %d term-level trees (16 term forms, + - * /, every grouping, <= 3 leaves); "
                      "%d embeddings under + - * / ^ neg sgn = ; the inputs/outputs of every rules/*.test.json example; %d generator outputs; the documented alternate tree forms, their additive analogues and special value classes (rewrite.FORMS / EQ_FORMS)"
                      % (len(sent_texts), len(sents), len(extra), len(pick), len(ctxs), len(gens)))
@@ -182,7 +186,7 @@ def run_family(ctx, cases, prop):
         jobs = [(t, False, False, 6) for t in texts]
     if prop == "C06" and cases is None:
         # two-step derivations asked about again: every rule object is asked about (and applied to) trees that only a rewrite can produce
-        special = rewrite.UNDEF_FORMS + rewrite.FORMS + rewrite.EQ_FORMS
+        special = rewrite.UNDEF_FORMS + rewrite.HUGE_FORMS + rewrite.FORMS + rewrite.EQ_FORMS
         rng2 = random.Random(ctx.seed + 6)
         jobs = [(t, True, False) for t in texts if t not in set(special)] + [(t, True, 8) for t in special] + \
                [(t, True, True) for t in rng2.sample(texts, min(len(texts), 150 if ctx.quick else 3000))]
